@@ -16,6 +16,7 @@
 #include "verif.h"
 #define ENV_PROP "C10"
 #define ENV_IS_PAYLOAD(p, n) 1
+#define DR_DEFINES_TABLE_READ
 #include "C10/dr_common.h"
 #include "sqfs/super.h"
 
